@@ -175,6 +175,28 @@ pub fn real_walk(arch: &str, regs: &[(String, u64)], valid: &str, stackbase: u64
             let v = mk_valid(&c, valid);
             (MinidumpRawContext::Arm64(c), v, Cpu::Arm64, Os::Linux)
         }
+        "arm" => {
+            let mut c = format::CONTEXT_ARM::default();
+            for (k, v) in regs {
+                c.set_register(k, *v as u32).expect("arm reg");
+            }
+            let v = mk_valid(&c, valid);
+            (MinidumpRawContext::Arm(c), v, Cpu::Arm, Os::Linux)
+        }
+        // one CONTEXT_MIPS for both widths: the CONTEXT_MIPS64 flag selects the 64-bit unwinder (mips.rs Mips32Context)
+        "mips" | "mips64" => {
+            let mut c = format::CONTEXT_MIPS::default();
+            c.context_flags = if arch == "mips64" {
+                format::ContextFlagsCpu::CONTEXT_MIPS64.bits()
+            } else {
+                format::ContextFlagsCpu::CONTEXT_MIPS.bits()
+            };
+            for (k, v) in regs {
+                c.set_register(k, *v).expect("mips reg");
+            }
+            let v = mk_valid(&c, valid);
+            (MinidumpRawContext::Mips(c), v, if arch == "mips64" { Cpu::Mips64 } else { Cpu::Mips }, Os::Linux)
+        }
         _ => panic!("bad arch"),
     };
     let context = MinidumpContext { raw, valid };
@@ -236,6 +258,8 @@ pub fn real_walk(arch: &str, regs: &[(String, u64)], valid: &str, stackbase: u64
             MinidumpRawContext::X86(c) => c.get_register_always(n) as u64,
             MinidumpRawContext::Amd64(c) => c.get_register_always(n),
             MinidumpRawContext::Arm64(c) => c.get_register_always(n),
+            MinidumpRawContext::Arm(c) => c.get_register_always(n) as u64,
+            MinidumpRawContext::Mips(c) => c.get_register_always(n),
             _ => panic!("arch"),
         }
     };
